@@ -585,7 +585,19 @@ class Fn:
             op = n['opcode']
             l, r = n['inner']
             if op in ('&&', '||') and has_side_effect(r) and not self.effect_free(r):
-                raise Unsupported('side effect in the right operand of ' + op + ' (short-circuit evaluation)')
+                if not self.effect_free(r, allow_externs=True) or self.loop_mode is not None:
+                    raise Unsupported('side effect in the right operand of ' + op + ' (short-circuit evaluation)')
+                # the right operand only calls the environment: evaluate it under the path condition C gives it, so that the
+                # `called` flag of those calls is exact
+                lt_, rt_, nt_ = tu.vtype(l), tu.vtype(r), tu.vtype(n)
+                lb = self.bind('sc', f'(decide ({self.ev(l, env)} != {lit(0, lt_.w)}))')
+                path = env.get('$path', 'true')
+                cond = f'(!{lb})' if op == '||' else lb
+                env['$path'] = cond if path == 'true' else f'({path} && {cond})'
+                rb = self.bind('sc', f'(decide ({self.ev(r, env)} != {lit(0, rt_.w)}))')
+                env['$path'] = path
+                res = f'({lb} || {rb})' if op == '||' else f'({lb} && {rb})'
+                return f'(if {res} then {lit(1, nt_.w)} else {lit(0, nt_.w)})'
             if op == ',':
                 self.ev(l, env)
                 return self.ev(r, env)
@@ -763,6 +775,10 @@ class Fn:
     def call(self, n, env):
         callee = strip(n['inner'][0])
         if callee.get('kind') != 'DeclRefExpr':
+            if 'indirect_call' in self.externs and self.loop_mode is None:
+                # a call through a function pointer read from memory (`kernel.current->fn(kernel.current)`): a call of the
+                # environment named `indirect_call` whose first argument is the pointer called
+                return self.extern_call('indirect_call', n, [n['inner'][0]] + n['inner'][1:], env)
             raise Unsupported('indirect call')
         fname = callee['referencedDecl']['name']
         args = n['inner'][1:]
@@ -893,11 +909,11 @@ class Fn:
         env['$trace'] = self.bind('trace', ev_ if live == 'true' else f'(if {live} then {ev_} else {env["$trace"]})')
         return ret
 
-    def effect_free(self, n, depth=0):
+    def effect_free(self, n, depth=0, allow_externs=False):
         """no store, no atomic operation, and every call is of a function assumed pure or of a unit function whose body is itself
         effect free (reads only): evaluating such an operand although C would have skipped it changes nothing"""
         if isinstance(n, list):
-            return all(self.effect_free(v, depth) for v in n)
+            return all(self.effect_free(v, depth, allow_externs) for v in n)
         if not isinstance(n, dict):
             return True
         k = n.get('kind')
@@ -911,16 +927,16 @@ class Fn:
             c = strip(n['inner'][0])
             nm = c.get('referencedDecl', {}).get('name') if c.get('kind') == 'DeclRefExpr' else None
             real = self.fnalias_map.get(nm, nm)
-            if real in self.pure_calls:
+            if real in self.pure_calls or (allow_externs and nm in self.externs):
                 pass
             elif nm in self.tu.fns and depth < 4 and nm not in self.externs:
                 body = [x for x in self.tu.fns[nm]['inner'] if x['kind'] == 'CompoundStmt']
-                if not body or not self.effect_free(body[0], depth + 1):
+                if not body or not self.effect_free(body[0], depth + 1, allow_externs):
                     return False
             else:
                 return False
-            return all(self.effect_free(a, depth) for a in n['inner'][1:])
-        return all(self.effect_free(v, depth) for v in n.get('inner', []) if isinstance(v, (dict, list)))
+            return all(self.effect_free(a, depth, allow_externs) for a in n['inner'][1:])
+        return all(self.effect_free(v, depth, allow_externs) for v in n.get('inner', []) if isinstance(v, (dict, list)))
 
     def body_calls_extern(self, n, seen=None):
         seen = seen if seen is not None else set()
@@ -1602,7 +1618,9 @@ def load(path, extra):
                     try:
                         nxt = c2lean.const_eval(init[0])
                     except (Unsupported, KeyError):
-                        nxt = None
+                        ref = strip(init[0])
+                        nm_ = ref.get('referencedDecl', {}).get('name') if ref.get('kind') == 'DeclRefExpr' else None
+                        nxt = tu.enums.get(nm_)        # `FIBRE_STATE_YIELDED = PT_YIELDED`
                 if nxt is not None:
                     tu.enums[e['name']] = nxt
                     nxt += 1
